@@ -209,3 +209,20 @@ Proof.
                    cursor_encode cursor_encode_f (cursor_decode KInt) app_window edges conn ar af bf sel window_ok_ex _ H1 H2 H3)).
   intros x Hx. destruct (cursors_ok x Hx) as [_ [_ Hlen]]. unfold enc_ok, cursor_encode_f. cbv zeta. rewrite Hlen. reflexivity.
 Qed.
+
+(** struct cursors (two edges per timestamp) through one-directional connections of the model the
+    check runs: forward-only walks forwards, backward-only backwards, and the wrong direction is
+    rejected before the resolver runs (the client sees an error) *)
+Definition te (n : Z) (i : N) (node : Z) : edge := (CTime n [i], node).
+Definition tedges : list edge := [te 2000 99 3; te 1000 98 2; te 1000 97 1; te 2000 100 4].
+Definition tconn : list edge := [te 1000 97 1; te 1000 98 2; te 2000 99 3; te 2000 100 4].
+Definition tapp : app cursor edge :=
+  {| app_has_all := true; app_all := Ok (Sync tedges); app_edges := fun _ _ _ => Err EApp; app_total := None |}.
+Notation tsrv d := (as_server_dir cursor edge cursor_ltb ecur cursor_encode_f (cursor_decode KTime) d tapp).
+Example time_walks :
+  walk_forward edge (tsrv ForwardOnly) 1 5 None = Done tconn
+  /\ walk_forward edge (tsrv ForwardOnly) 3 5 None = Done tconn
+  /\ walk_backward edge (tsrv BackwardOnly) 3 5 None = Done tconn
+  /\ walk_backward edge (tsrv Bidirectional) 1 5 None = Done tconn
+  /\ walk_backward edge (tsrv ForwardOnly) 3 5 None = ServerError.
+Proof. vm_compute. repeat split; reflexivity. Qed.
